@@ -149,7 +149,7 @@ MICRO_INVS = ["Safe", "Bounded", "IdleWellFormed"]
 ALL_INVS = ["TypeOK", "Bounded", "UniqueKeys", "RefinesDict", "Conservation", "UncheckedAgrees", "DisjointAgrees"]
 
 
-def one_job(pid, tier, seed, job, bins):
+def one_job(pid, tier, seed, job, bins, only=None):
     """TLC on one job, then the replay of its table in every build profile.
     Returns (tlc summary, [(profile, report or None, crash-failure or None)], table, jkey)."""
     tag = "%s-%s-%s" % (pid, tier, job["tag"])
@@ -177,6 +177,14 @@ def one_job(pid, tier, seed, job, bins):
         raise ToolError("TLC reports an error on the specification itself (%s):\n%s" % (tag, st["text"][-3000:]))
     if st["emitted"] == 0:
         raise ToolError("vacuous run: TLC emitted no transition for %s" % tag)
+    if only is not None:
+        # replay of one recorded violation: keep the transitions of that (state, call) only
+        keys = ("n", "s", "o", "na", "nb", "a", "b")
+        want = {k: only[k] for k in keys if k in only}
+        kept = [l for l in open(table) if all(json.loads(l).get(k) == v for k, v in want.items())]
+        with open(table, "w") as f:
+            f.writelines(kept)
+        job = dict(job, walks=0)
     outs = []
     for prof, binp in bins.items():
         rep_path = os.path.join(WORK, "report-%s-%s.json" % (tag, prof))
@@ -207,9 +215,30 @@ def one_job(pid, tier, seed, job, bins):
                 pass
             outs.append((prof, None, {"how": "the harness process died (signal/abort) while executing this transition (%s build)" % prof,
                                       "msg": "exit status %s; output: %s" % (p.returncode, p.stdout[-1500:]), "transition": line, "table": table,
-                                      "line": case, "jobkey": jkey}))
+                                      "line": case, "jobkey": jkey, "job": json.loads(jkey)}))
         else:
-            outs.append((prof, json.load(open(rep_path)), None))
+            rep = json.load(open(rep_path))
+            if job.get("shapes") and not (pair or micro or job.get("sweep")):
+                # the same transitions with other element shapes (ZST, small Copy, heap-owning, large, Clone-without-Drop)
+                sp = os.path.join(WORK, "report-%s-%s-shapes.json" % (tag, prof))
+                if os.path.exists(sp):
+                    os.remove(sp)
+                p2 = subprocess.run([binp, "shapes", "--table", table, "--mode", consts["Mode"], "--out", sp, "--progress", prog],
+                                    stdout=subprocess.PIPE, stderr=subprocess.STDOUT, text=True, timeout=3000)
+                if p2.returncode != 0 or not os.path.exists(sp):
+                    case = open(prog).read().strip() if os.path.exists(prog) else "?"
+                    outs.append((prof, None, {"how": "the harness process died (signal/abort) while replaying with another element shape (%s build)" % prof,
+                                              "msg": "exit status %s; output: %s" % (p2.returncode, p2.stdout[-1500:]), "transition": None, "table": table,
+                                              "line": case, "jobkey": jkey, "job": json.loads(jkey)}))
+                    continue
+                r2 = json.load(open(sp))
+                rep["edges"] += r2["edges"]
+                rep["shapes"] = r2.get("shapes")
+                for k, v in r2["fail_examples"].items():
+                    rep["fail_examples"].setdefault(k, []).extend(v)
+                for k, v in r2["fail_counts"].items():
+                    rep["fail_counts"][k] = rep["fail_counts"].get(k, 0) + v
+            outs.append((prof, rep, None))
     return st, outs, table, jkey, tag
 
 
@@ -339,6 +368,10 @@ def mapgraph(pid, tier, seed, jobs, profiles):
                     sw["callback_kinds"][k] = sw["callback_kinds"].get(k, 0) + v
                 for k, v in rep["sweep"]["failing_sites"].items():
                     sw["failing_sites"][k] = sw["failing_sites"].get(k, 0) + v
+            if rep.get("shapes"):
+                sh_ = summary.setdefault("element_shapes", {})
+                for k, v in rep["shapes"].items():
+                    sh_[k] = sh_.get(k, 0) + v
             summary["replayed_edges"] += rep["edges"]
             summary["walk_steps"] += rep["walk_steps"]
             summary["drift"] += rep["drift"]
@@ -355,6 +388,7 @@ def mapgraph(pid, tier, seed, jobs, profiles):
                     e2["table"] = table
                     e2["count"] = rep["fail_counts"].get(prop, 0)
                     e2["jobkey"] = jkey
+                    e2["job"] = json.loads(jkey)
                     failures.append(({prop}, e2))
     return summary, failures
 
@@ -457,9 +491,12 @@ def jobs_for(pid, tier):
     tcaps = [(2, 3), (3, 2), (0, 2), (2, 0), (0, 0), (1, 1), (2, 2), (3, 3), (3, 4), (4, 3), (4, 4), (2, 4), (4, 2)]
     core = both("core", ["core"])
     setcore = both("setcore", ["core"], mode="set")
+
+    def shaped(js):
+        return [dict(j, shapes=True) for j in js]
     table = {
-        "C01": core + tmap,
-        "C07": setcore + both("setbulk", ["bulk"], mode="set", consts={"MaxExtra": 1}, bigconsts={"Vers": [0]}) + tset,
+        "C01": shaped(core) + tmap,
+        "C07": shaped(setcore + both("setbulk", ["bulk"], mode="set", consts={"MaxExtra": 1}, bigconsts={"Vers": [0]})) + tset,
         "C09": both("cursor", ["cursor"]) + setcore + tmap + tset,
         "C10": both("cursor", ["cursor"]) + core + setcore + tmap + tset,
         "C11": both("entry", ["entry"]) + tmap,
@@ -470,10 +507,10 @@ def jobs_for(pid, tier):
         "C19": both("fmt", ["fmt", "cursor"]) + setcore,
         "C08": pairs("alg", ["algebra"], "set", qcaps if q else tcaps),
         "C14": pairs("eqset", ["eq"], "set", qcaps if q else tcaps) + pairs("eqmap", ["eq"], "map", qcaps[:2] if q else tcaps[:9]),
-        "C15": both("clone", ["clone"]) + both("setclone", ["clone"], mode="set"),
+        "C15": shaped(both("clone", ["clone"])) + both("setclone", ["clone"], mode="set"),
         "C20": both("serde", ["serde"]) + both("setserde", ["serde"], mode="set"),
-        "C06": core + both("cursor", ["cursor"]) + both("efdc", ["entry", "fmt", "disjoint", "clone", "unchecked"], consts={"Vers": [0]})
-               + setcore + both("setclone", ["clone"], mode="set")
+        "C06": shaped(core) + both("cursor", ["cursor"]) + both("efdc", ["entry", "fmt", "disjoint", "clone", "unchecked"], consts={"Vers": [0]})
+               + shaped(setcore) + both("setclone", ["clone"], mode="set")
                + pairs("alg", ["algebra", "eq"], "set", qcaps[:2] if q else tcaps[:8]) + pairs("eqmap", ["eq"], "map", qcaps[:1] if q else tcaps[:4]),
         "C04": micro_inject + [dict(j, sweep="inject") for j in
                 both("core", ["core"]) + both("cef", ["cursor", "entry", "fmt", "unchecked"], consts={"Vers": [0]})
@@ -487,8 +524,8 @@ def jobs_for(pid, tier):
                + both("setbulk", ["bulk"], mode="set", consts={"MaxExtra": 1}, bigconsts={"Vers": [0]}) + tmap + tset,
         "C02": core + both("cursor", ["cursor"]) + both("eubc", ["entry", "unchecked", "bulk", "clone"], consts={"Vers": [0]}, bigconsts={"MaxExtra": 1})
                + setcore + both("setbc", ["bulk", "clone"], mode="set", consts={"MaxExtra": 1}, bigconsts={"Vers": [0]}) + tmap + tset,
-        "C03": core + both("entry", ["entry"]) + both("bulk", ["bulk"], bigconsts={"MaxExtra": 1}) + setcore
-               + both("setbulk", ["bulk"], mode="set", consts={"MaxExtra": 1}, bigconsts={"Vers": [0]}),
+        "C03": shaped(core) + both("entry", ["entry"]) + shaped(both("bulk", ["bulk"], bigconsts={"MaxExtra": 1})) + shaped(setcore)
+               + shaped(both("setbulk", ["bulk"], mode="set", consts={"MaxExtra": 1}, bigconsts={"Vers": [0]})),
     }
     return table.get(pid)
 
@@ -578,7 +615,7 @@ def write_evidence(pid, tier, seed, summary, nviol, wall, others):
             "emitted_transitions": summary["emitted"], "replayed_edges": summary["replayed_edges"], "walk_steps": summary["walk_steps"],
             "spec_drift_steps": summary["drift"], "tlc_runs": summary["tlc"], "replays": summary["replays"],
             "op_counts": summary["op_counts"], "other_property_failures_seen": others,
-            "nostd_probe": summary.get("nostd_probe"), "sweep": summary.get("sweep"),
+            "nostd_probe": summary.get("nostd_probe"), "sweep": summary.get("sweep"), "element_shapes_edges": summary.get("element_shapes"),
             "explanation": "TLC exhaustively explored the stated constants checking the invariants in every state and "
                            "emitted every (state, operation) transition; each emitted transition was replayed against the real crate "
                            "from a canonical construction and along random walks, in debug and release builds.",
@@ -609,6 +646,34 @@ def main():
                     if "Semantic errors" in p.stdout or "Fatal" in p.stdout or "Could not parse" in p.stdout or p.returncode != 0:
                         raise ToolError("SANY rejects %s:\n%s" % (f, p.stdout[-2000:]))
             print("setup ok")
+            return 0
+        if cmd == "replay":
+            rp = json.load(open(sys.argv[2]))
+            pid, tier, seed = rp["property"], rp.get("tier", "quick"), int(rp.get("seed", 1))
+            os.makedirs(WORK, exist_ok=True)
+            ex0 = rp["violations"][0]
+            job = ex0.get("job")
+            if not job:
+                raise ToolError("the replay file records no job")
+            job["tag"] = "replay-" + job.get("tag", "x")
+            bins = build_all(["debug", "release"])
+            only = ex0.get("transition") if job.get("spec") != "trace" and isinstance(ex0.get("transition"), dict) else None
+            st, outs, table, jkey, tag = one_job(pid, tier, seed, job, bins, only=only)
+            gate = GATES.get(pid, {pid, "CRASH"}) | {"SPEC"}
+            again = []
+            for prof, rep, crash in outs:
+                if crash is not None:
+                    again.append("[%s] %s" % (prof, crash["msg"][:300]))
+                    continue
+                for prop, exs in rep["fail_examples"].items():
+                    if prop in gate:
+                        again.extend("[%s] %s: %s" % (prof, e.get("how", ""), e.get("msg", "")[:400]) for e in exs[:2])
+            if again:
+                for a in again[:6]:
+                    print("  " + a)
+                print("VIOLATION property=%s replay=%s" % (pid, sys.argv[2]))
+                return 1
+            print("replay of %s: the recorded violation does not occur on this tree" % sys.argv[2])
             return 0
         if cmd == "matrix":
             tier = sys.argv[sys.argv.index("--tier") + 1] if "--tier" in sys.argv else "quick"
